@@ -116,6 +116,69 @@ def wide_programs():
 
 COMMENTS = ["/* c */", "// c\n", "# c\n", "/* multi\n   line */", "/**/"]
 
+# Comment positions the formatter does support (before an item, inline after an item, at the end of a list, around
+# the whole program).  The known findings about dropped / moved comments are about *other* positions; at these
+# positions a lost, moved or duplicated comment is reported under its own oracle name, which no finding matches.
+SUPPORTED_COMMENT_PROGRAMS = [
+    "{\n  @L before field\n  a: 1,\n  b: 2,\n}",
+    "{\n  a: 1,  @L inline after field\n  b: 2,\n}",
+    "{\n  @B\n  a: 1,\n}",
+    "{\n  a: 1,\n  @L end of object\n}",
+    "{\n  @L before\n  a: 1,\n  @L between\n  b: 2,\n}",
+    "[\n  @L before element\n  1,\n  2,\n]",
+    "[\n  1,  @L after element\n  2,\n]",
+    "[\n  1,\n  2,\n  @L end of array\n]",
+    "[\n  @B\n  1,\n  @B\n  2,\n]",
+    "@L leading comment\n{ a: 1 }",
+    "{ a: 1 }\n@L trailing comment\n",
+    "@B\nlocal a = 1;\na",
+    "{\n  local x = 1,  @L after object local\n  a: x,\n}",
+    "{\n  @L before local\n  local x = 1,\n  a: x,\n}",
+    "{\n  @L before assert\n  assert true,\n  a: 1,\n}",
+    "f(\n  @L before arg\n  1,\n  2,\n)",
+    "{\n  a: {\n    @L nested before\n    b: 1,  @L nested after\n  },\n}",
+    "[\n  [\n    @L inner\n    1,\n  ],\n]",
+    "{\n  a: 1,\n\n  @L after blank line\n  b: 2,\n}",
+    "{\n  @L one\n  @L two\n  a: 1,\n}",
+    "{\n  a: 1,  @B\n  b: 2,\n}",
+    "{\n  a: [\n    1,  @L x\n  ],  @L y\n}",
+    "{\n  [k]: 1  @L comp\n  for k in ['a']\n}",
+    "local o = {\n  @L c\n  a: 1,\n};\no { @L ext\n  b: 2,\n}",
+    "{\n  @L first\n  a: 1,  @L after a\n  @B\n  b: [\n    @L in array\n    1,  @L after 1\n    2,\n    @L end\n  ],\n  @L last\n}",
+]
+
+
+def supported_comment_programs(unspaced=False):
+    """unspaced=True: the same programs with comments that have no blank after the marker (`#x`, `/*x*/`, `/**/`),
+    which the formatter re-spaces - a known finding of its own"""
+    out = []
+    variants = (("#x", "/*x*/"), ("//x", "/**/")) if unspaced else \
+        (("// c", "/* c */"), ("# c", "/* c */"), ("// é 漢 \\ ' \"", "/* * / */"), ("//", "/* c */"))
+    for t in SUPPORTED_COMMENT_PROGRAMS:
+        for line, block in variants:
+            out.append(t.replace("@L", line).replace("@B", block))
+    return list(dict.fromkeys(out))
+
+
+def respaced(comments):
+    """comment token sequence with one blank inserted after the opening marker and before `*/` where missing"""
+    out = []
+    for kind, text in comments:
+        if kind == "MULTI_LINE_COMMENT":
+            body = text[2:-2]
+            if body != "":
+                if not body[0].isspace():
+                    body = " " + body
+                if not body[-1].isspace():
+                    body = body + " "
+            text = "/*" + body + "*/"
+        else:
+            m = 1 if text.startswith("#") else 2
+            if len(text) > m and not text[m].isspace():
+                text = text[:m] + " " + text[m:]
+        out.append((kind, text))
+    return out
+
 
 def decorate(text, tokens, rng, per_program):
     """yield variants of `text` with one comment inserted at a token boundary, and one with
